@@ -70,7 +70,21 @@ impl Recorder {
 /// An `S3Error` from its JSON description: code, message?, request_id?, status?, headers? ([[name, hex value]])
 pub fn build_error(d: &Value) -> S3Error {
     let code = S3ErrorCode::from_bytes(d["code"].as_str().unwrap().as_bytes()).unwrap();
-    let mut e = S3Error::new(code);
+    // "via": how the value is put together - directly, or as an error of another code whose code is replaced afterwards
+    // (what a backend does that wraps a lower-level error), or through with_message
+    let mut e = match d["via"].as_str() {
+        Some("set_code_from_internal") => {
+            let mut e = S3Error::new(S3ErrorCode::InternalError);
+            e.set_code(code);
+            e
+        }
+        Some("set_code_from_not_found") => {
+            let mut e = S3Error::with_message(S3ErrorCode::NoSuchKey, "replaced");
+            e.set_code(code);
+            e
+        }
+        _ => S3Error::new(code),
+    };
     if let Some(m) = d["message"].as_str() {
         e.set_message(String::from_utf8(hex(&Value::String(m.to_owned()))).unwrap());
     }
